@@ -28,6 +28,8 @@ UNSUPPORTED = ['=FOO(1)', '=SIN(1)', '=A1^2', '=SUMPRODUCT(A1:A2,B1:B2)', '=NOW(
 MALFORMED = ['=(1', '=', '=*1', '=1+', '=+', '=()', '=SUM(', '=SUM()', '=SUM(1,)', '=IF(1)', '=IF(1,2,3,4)', '=1 2', '=A1A1', '="', '=1<>', '=&', '=%', '=1%%', '=(2)%', '=50%20%',
              '=2%3', '=2%(3)', '=SUM(A1;A2', '=MAX', '=IF(A1>1;A2', '=1+SUM(A1:A2', '=TODAY(', '=ROUND(1)', '=LEFT()', '=VLOOKUP(1,A1:B2)', '=INDEX(A1:B2)', '=DATE(1,2)',
              '=AND()', '=OR(1', '=IFERROR(1)', '=IFS(1)', '=COUNT()', '=MIN(1,)', '=1e400', '=1.5e400', '=1e5000', '=1e309', '=1e308', '=SUM(1,,2)', '=))((', '=A1:', '=:A1', '=A1:B', '=$', '=A$', '=1,2', '=;',
+             '=IF(A1>3;"the total exceeds the configured limit for this period', '=CONCATENATE(A1;" units in stock, reorder level is ;A1;A1)',
+             '=A1&"' + 'x' * 40, '="a"&"b"&"' + 'tail without a closing quote ' * 2,
              '=IF(,,)', '=SUM(A1:A2:A3)', '=--', '=1--', '=MATCH(1)', '=XMATCH(1)', '=SEARCH("a")', '=TEXT(1)', '=VALUE()', '=CONCATENATE()', '=YEAR()', '=COUNTIFS(A1:A2)']
 REFS = ['=Nope!A1', "='No such'!B2", '=A0', '=AAAA1', '=A1048577', '=XFE1', '=ZZZ99999', '=Other!ZZ9', '=A0:B2', '=A1:B0', '=SUM(A0:A2)', '=A:A', '=A:B', '=1:1', '=Other!A:A',
         '=C3', '=C4', '=SUM(C3:C4)']                  # C3/C4 are written as a cycle when this family is chosen
